@@ -127,6 +127,15 @@ CLAIMS = {
         'are recorded as known findings.',
    note='Trusted: Coq kernel/vm_compute; hand models Extract.v/Text.v tied by trace correspondence; tokenize and the CPython parser as reference. No axioms.',
    design='DESIGN.md section 4 C07'),
+ 'C05': dict(
+   technique='Coq proof: wrapper geometry (fragment spans and characters are identical one/two lines down in the embedding, so the line shift with untouched columns is exact) and the delimiter guard (accepts iff no prefix over-closes; accepted balanced fragments leave the wrapper delimiter open until the wrapper closes it); correspondence with _verify_no_close_delimiters; independent-embedding oracle per parse mode with a hostile fragment stream',
+   text='Proved (closed): for any prefix lines, suffix and fragment, every span on fragment lines reads the same text in the embedding and in the fragment after the line shift; the counting loop of '
+        'the delimiter guard accepts exactly the texts without an over-closing prefix, an accepted balanced fragment leaves the wrapper opener to be closed right after it, a refused one would have '
+        'closed it inside. Partial: CPython itself, the per-mode wrapper choice and the non-delimiter guards are decided by the oracle: 24 extended modes + operators + whole programs; fragments from '
+        'the corpus, re-laid-out, non-ASCII, and hostile (wrapper-closing text, wrong counts, splices); validity and the expected sub-tree come from embeddings written for the check (construct '
+        'around the hole unchanged, all fragment tokens inside the element). Four wrapper-induced misparses found this way were repaired in /repo.',
+   note='Trusted: Coq kernel/vm_compute; hand model Wrap.v tied by correspondence; CPython ast.parse and tokenize as reference; the EMB embedding table of py/props/C05.py as the definition of "full construct". No axioms.',
+   design='DESIGN.md section 4 C05'),
 }
 
 checks = []
